@@ -31,7 +31,7 @@ CHECKS = {
         category='model_checking',
         text='Bounded model checking of the real controller_nonMPI by symbolic execution: residuals per (step, iteration) are free reals, maxiter a free integer in 0..Kmax, '
              'force flags free booleans; the real convergence test forks, the solver prunes infeasible branches, every feasible path is executed and the safety clauses are asserted on the '
-             'real objects; a final SMT query certifies that the explored paths cover all inputs. Bounds: quick NP<=3, levels<=3, Kmax<=3; thorough NP<=4, levels<=3, Kmax<=4, nsweeps<=2.',
+             'real objects (finish order, finished steps untouched, one stage for all running steps, tag / value / level of every receive, callback grammar); a final SMT query certifies that the explored paths cover all inputs. Bounds: quick NP<=3, levels<=3, Kmax<=3; thorough NP<=4, levels<=3, Kmax<=4, nsweeps<=2 (large configurations explored in parts, one per feasible prefix of the first 18 decisions).',
         note='Trusted: z3 feasibility answers; probe sweeper. Outside: NP>4, MPI controller, iteration estimator; single block per run.',
         design='4/C07', technique='symbolic path exploration of the real controller with SMT feasibility pruning and coverage certificate',
     ),
@@ -105,7 +105,7 @@ CHECKS = {
     'C19': dict(
         category='other',
         text='The real controller runs on a symbolic initial value; two runs are bit-identical for EVERY input iff their result terms and all statistics values are structurally identical z3 terms. Scenarios: fresh controller twice, '
-             'same controller two and three times, a differently configured controller (extra status variables, hooks) run in between, split at every block boundary (statistics of the halves merged). Non-identical pairs are '
+             'same controller two and three times, a differently configured controller (extra status variables, hooks) run in between, split at every block boundary (statistics of the halves merged); configurations include increment-based stopping (extra level status variables), a user hook with an extended entry class, a sweep-index dependent preconditioner with several sweeps. Non-identical pairs are '
              'decided over the reals by the solver and replayed on real floats.',
         note='Trusted: structural identity of terms implies bit-equal floats. Known finding: initial_guess=random (hidden RNG state). Outside: MPI, adaptive step sizes, timings.',
         design='4/C19', technique='symbolic execution of whole real runs; syntactic term identity, SMT equality over the reals as fallback',
